@@ -170,6 +170,10 @@ func c15Parse(c *core.Case, o *core.Outcome) {
 			st.durStage = defDur == 0 || r.IntN(2) == 0
 			if st.durStage {
 				st.dur = time.Duration(10+r.IntN(900))*time.Second + time.Duration(k+1)*time.Millisecond
+				if (st.mode == "constant" || st.mode == "users") && r.IntN(8) == 0 {
+					// a stage of no length is still a stage of the plan (kept, in order, when nothing says it is over)
+					st.dur = 0
+				}
 			} else {
 				st.dur = defDur
 				inherited++
@@ -311,7 +315,7 @@ func c15Parse(c *core.Case, o *core.Outcome) {
 				for q := 0; q < j; q++ {
 					cum += stages[q].dur
 				}
-				now = ss.Add(cum + time.Duration(r.Int64N(int64(stages[j].dur))))
+				now = ss.Add(cum + time.Duration(r.Int64N(int64(stages[j].dur)+1)))
 				posClass = "inside"
 			default:
 				j := r.IntN(ns)
